@@ -323,7 +323,10 @@ pub fn check_draws(prop: &str, cfg: &ChainCfg, h: &History, out: &mut RunOutcome
             }
         }
         // bookkeeping for the next draw
-        if let Some(e) = matching.last() {
+        // (when the position was evaluated more than once - periodic orbit - the state the chain holds is the
+        // evaluation whose log density the statistics report)
+        let held = matching.iter().rev().find(|e| logp_stat.map(|lp| lp.to_bits() == e.logp.to_bits()).unwrap_or(false)).or(matching.last());
+        if let Some(e) = held {
             prev_logp = Some(e.logp);
             prev_grad = Some(e.grad.clone());
         }
